@@ -1,6 +1,7 @@
 SPECIFICATION GSpec
 CONSTANTS N = 2
           OUTER = FALSE
+          AFTER = FALSE
 CHECK_DEADLOCK FALSE
 INVARIANT Emit
 INVARIANT CatchIdsUnique
